@@ -15,9 +15,11 @@ Stream
              Observed after every step: cfdm.atol(), rtol(), log_level(), configuration(),
              logging.root.manager.disable, logging.getLogger().level.
 
-The model line is evaluated by the Lean driver under the decorator *as patched by*
-fixes/C20-verbose-scope.patch; `C20.old` (the decorator of 1.11.2.0) is used only by `classify`
-to recognise the known defects exactly.
+The driver answers with two predictions: the decorator as patched by
+fixes/C20-verbose-scope.patch (proposed, not applied) and the decorator of 1.11.2.0 as coded.
+The two are proved equal on guarded programs (C20_old_eq_new_on_guarded); the implementation is
+compared with the first, and where the two differ (the three defect classes) a failure is a
+known finding only if the whole observed trace equals the second.
 """
 import ast
 import contextlib
@@ -51,19 +53,23 @@ REQUIRED = [
     "C20_old_nested_verbose_not_restored",
     "C20_old_equals_disables_logging",
     "C20_old_verbose_zero_reenables_logging",
+    "C20_old_single_call_restores_partial",
+    "C20_old_verbose_scoped_partial",
+    "C20_old_eq_new_on_guarded",
 ]
 BUDGET = {"quick": 10000, "thorough": 300000}
 RULE = (
     "well-nested programs (depth <= 3 quick, <= 6 thorough) of {setter, configuration, with-block of a "
     "setter / of configuration (with and without argument), decorated call (synthetic function or method, "
     "or one of the decorated cfdm functions found by reflection, returning or raising), try, raise, "
-    "Data.equals with tolerance arguments} x verbose in {None, -1..3, level names in any case, True, False, "
-    "invalid ints, invalid names} x initial level in the 5 values x 8 tolerance values; observed after every "
+    "equals of Data / a coordinate / a Field with tolerance arguments (explicit zero included, spelled as int, float, "
+    "numpy scalar or cfdm.Constant; global loose vs passed tight and vice versa on operands differing by a known amount)} x verbose in {None, -1..3, level names in any case, True, False, "
+    "invalid ints, invalid names} x initial level in the 5 values x 9 tolerance values (8 powers of two and zero); observed after every "
     "step at every depth. non-trivial = has a call with verbose not None, a with-block or a raise; "
     "distinct = distinct program text"
 )
 ASSUMPTIONS = [
-    "tolerances are 8 exact powers of two (floats are abstract identifiers in the model); arguments that make float() raise TypeError are not generated (only ValueError is rolled back by _configuration)",
+    "tolerances are 8 exact powers of two and exact zero (floats are abstract identifiers in the model); arguments that make float() raise TypeError are not generated (only ValueError is rolled back by _configuration)",
     "the root logger level is compared while logging is enabled (manager.disable == 0); under logging.disable(CRITICAL) it filters nothing and cfdm re-derives it whenever logging is re-enabled, so it is printed as '-'",
     "a with-block of log_level/configuration placed *inside* a call with a verbose re-derives the logging state from the restored global level on exit (by design of Constant.__exit__); there the oracle demands the three settings only, the model comparison covers the rest",
     "bodies of the real cfdm functions are opaque: they are observed after they return/raise only",
@@ -77,7 +83,8 @@ BYVALUE = {v: k for k, v in VALUE.items()}
 NUM = {"WARNING": 30, "INFO": 20, "DETAIL": 15, "DEBUG": 10}
 CRITICAL = 50
 TOL_EXP = [52, 40, 30, 20, 12, 8, 4, 1]
-TOLS = [2.0 ** -e for e in TOL_EXP]
+TOLS = [2.0 ** -e for e in TOL_EXP] + [0.0]     # number 8 is exactly zero
+ZERO = len(TOLS) - 1
 TOL_INDEX = {t: i for i, t in enumerate(TOLS)}
 
 # ------------------------------------------------------------------ table regeneration
@@ -489,7 +496,7 @@ def enc(prog, names=None):
         elif k == "raise":
             out.append(f"raise:{st[1]}")
         elif k == "eq":
-            out.append(f"eq:{st[1]}:{st[2]}:{st[3]}")
+            out.append(f"eq:{st[1]}:{st[2]}:{st[3]}:{st[4]}{st[5]}")
         else:
             raise fw.HarnessError("unknown statement " + repr(st))
     return ";".join(out)
@@ -578,9 +585,7 @@ def gen_stmt(rng, depth, maxdepth, names):
     if k == "raise":
         return ["raise", rng.choice("VTK")]
     if k == "eq":
-        def t():
-            return "_" if rng.random() < 0.4 else str(rng.randrange(len(TOLS)))
-        return ["eq", t(), t(), rng.randint(2, 45)]
+        return gen_eq(rng, leaf)
     if k == "real":
         if not names:
             return ["call", "f", gen_verbose(rng), []]
@@ -594,6 +599,36 @@ def gen_stmt(rng, depth, maxdepth, names):
     if k == "wcfg":
         return ["wcfg", gen_tol(rng), gen_tol(rng), gen_lvl(rng), body]
     return ["try", body]
+
+
+def gen_eq(rng, leaf):
+    """An equality test with tolerance arguments.  Half of the time placed inside a
+    configuration block chosen so that global and passed tolerances disagree about the operands
+    (global loose / passed tight — explicit zero included — and the other way round)."""
+    kind = rng.choice("dcf")
+    spell = rng.randrange(4)
+    tight = [ZERO, ZERO, 0, 1, 2]
+    loose = [6, 7, 7]
+
+    def passed(pool):
+        return "_" if rng.random() < 0.25 else str(rng.choice(pool))
+
+    r = rng.random()
+    if leaf or r < 0.4:
+        def t():
+            return "_" if rng.random() < 0.35 else str(rng.choice(list(range(len(TOLS))) + [ZERO, ZERO]))
+        return ["eq", t(), t(), rng.randint(2, 45), kind, spell]
+    # operands differ by 7*2^-m with 2^-4 < |x-y| < 0.5: loose (2^-4.. 2^-1) vs tight (<= 2^-30)
+    m = rng.randint(3, 6)
+    if r < 0.7:
+        glob, arg = loose, tight
+    else:
+        glob, arg = tight, loose
+    ga, gr = rng.choice(glob), rng.choice(glob)
+    st = ["eq", passed(arg), passed(arg), m, kind, spell]
+    if st[1] == "_" and st[2] == "_":
+        st[rng.choice([1, 2])] = str(rng.choice(arg))
+    return ["wcfg", f"t{ga}", f"t{gr}", "_", [st]]
 
 
 def gen_body(rng, depth, maxdepth, names):
@@ -630,6 +665,12 @@ def mk(p):
     prog = p["prog"]
     names = env().names
     for st in walk(prog):
+        if st[0] == "eq":
+            # [eq, rtol, atol, m, kind (d Data / c coordinate / f Field), spelling of the numbers]
+            if len(st) < 5:
+                st.append("d")
+            if len(st) < 6:
+                st.append(1)
         if st[0] == "real":
             # a function for which no normal call was found can only be called so that it raises
             if st[3] == "o" and not env().recipes.get(st[1]):
@@ -658,6 +699,13 @@ def mk(p):
         elif st[0] in ("with", "wcfg", "raise"):
             nontrivial = True
             tags.add(st[0])
+        elif st[0] == "eq":
+            tags.add("eq")
+            tags.add("eq:" + {"d": "Data", "c": "coordinate", "f": "Field"}[st[4]])
+            if str(ZERO) in (st[1], st[2]):
+                tags.add("eq:explicit-zero")
+            if st[1] != "_" or st[2] != "_":
+                tags.add("eq:passed-" + ["int-or-float", "float", "numpy", "Constant"][st[5]])
         else:
             tags.add(st[0])
     tags.add(f"depth:{depth_of(prog)}")
@@ -679,6 +727,32 @@ def _show(v):
 
 
 _EXC = {"V": ValueError, "T": TypeError, "K": KeyError}
+
+
+def _operand(C, kind, value):
+    """Data, a coordinate construct or a field construct holding the single number `value`."""
+    d = C.Data([value])
+    if kind == "d":
+        return d
+    if kind == "c":
+        return C.DimensionCoordinate(data=d)
+    f = C.Field()
+    ax = f.set_construct(C.DomainAxis(1))
+    f.set_data(d, axes=[ax])
+    return f
+
+
+def _spelled(C, value, spell):
+    """The same number as a Python int/float, a numpy scalar or a cfdm.Constant."""
+    import numpy as np
+
+    if spell == 0:
+        return int(value) if value == int(value) else value      # 0 -> the int 0
+    if spell == 1:
+        return float(value)
+    if spell == 2:
+        return np.float64(value)
+    return C.Constant(value)
 
 
 def impl(c):
@@ -805,16 +879,16 @@ def impl(c):
         elif k == "raise":
             raise _EXC[st[1]]("boom")
         elif k == "eq":
-            m = st[3]
-            key = m
+            m, kind, spell = st[3], st[4], st[5]
+            key = (kind, m)
             if key not in e.eq_cache:
-                e.eq_cache[key] = (C.Data([2.0 + 7 * 2.0 ** -m]), C.Data([2.0]))
+                e.eq_cache[key] = (_operand(C, kind, 2.0 + 7 * 2.0 ** -m), _operand(C, kind, 2.0))
             x, y = e.eq_cache[key]
             kw = {}
             if st[1] != "_":
-                kw["rtol"] = TOLS[int(st[1])]
+                kw["rtol"] = _spelled(C, TOLS[int(st[1])], spell)
             if st[2] != "_":
-                kw["atol"] = TOLS[int(st[2])]
+                kw["atol"] = _spelled(C, TOLS[int(st[2])], (spell + 1) % 4)
             res = x.equals(y, **kw)
             obs("eq=" + ("T" if res else "F"))
         else:
@@ -974,7 +1048,10 @@ class Walker:
             at = TOLS[int(st[2])] if st[2] != "_" else TOLS[int(cur["a"])]
             want = abs((2.0 + 7 * 2.0 ** -st[3]) - 2.0) <= at + rt * 2.0
             if tag != "eq=" + ("T" if want else "F"):
-                self.fail(f"equals: verdict {tag}, expected {want} from the {'given' if st[1] != '_' and st[2] != '_' else 'given/global'} tolerances")
+                self.fail(f"equals({'Data' if st[4] == 'd' else 'coordinate' if st[4] == 'c' else 'Field'}, "
+                          f"rtol={'global ' if st[1] == '_' else ''}{rt}, atol={'global ' if st[2] == '_' else ''}{at}) on operands "
+                          f"differing by {7 * 2.0 ** -st[3]}: verdict {tag}, expected {want} (|a-b| <= atol + rtol*|b| with the "
+                          f"passed values where given; globals in force: rtol={TOLS[int(cur['r'])]}, atol={TOLS[int(cur['a'])]})")
             self.same(o, cur, "an equality test must not change any setting")
             return "ok", o
         raise fw.HarnessError("unknown statement " + repr(st))
